@@ -18,6 +18,9 @@ __all__ = ['Header',
 
 
 class Header(_Header):
+    # RFC 4880 5.2.3.1: a first length octet of 192..254 starts a two-octet subpacket length
+    _partial_ok = False
+
     @sdproperty
     def critical(self):
         return self._critical
